@@ -383,6 +383,19 @@ theorem generated_constants :
     QGen.C16.ctorValidateSumFirst = false ∧ QGen.C16.ctorValidateSumSecond = true := by
   decide +kernel
 
+/-- the threshold the constructor uses: the caller's value when it is given and non-zero, otherwise (omitted, `None`, `0`, `0.0`) the
+documented default 1e-8 — about the generated default. -/
+theorem resolveEpsZero_spec (e : Option Rat) :
+    resolveEpsZero e = (match e with
+      | none => mkRat 1 100000000
+      | some x => if x = 0 then mkRat 1 100000000 else x) := by
+  have h : QGen.C16.epsZeroDefault = mkRat 1 100000000 := generated_constants.2.2.2.1
+  unfold resolveEpsZero
+  cases e with
+  | none => simp [h]
+  | some x => simp [h]
+
+example : resolveEpsZero (some (mkRat 1 1000)) = mkRat 1 1000 := by decide +kernel
 example : QGen.C16.multiFromSerial [2, 3, 4] 17 = [1, 1, 1] := by decide
 example : QGen.C16.serialFromMulti [2, 3, 4] [1, 1, 1] = some 17 := by decide
 example : QGen.C16.serialFromMulti [2, 3, 4] [1, 1] = none := by decide
